@@ -95,8 +95,8 @@ func (c *CoqFile) DirDef(d *ast.DirectiveDefinition) string {
 		locs = append(locs, string(l))
 	}
 	builtin := d.Position != nil && d.Position.Src != nil && d.Position.Src.BuiltIn
-	return c.Intern("dd", "dirdef", fmt.Sprintf("{| dd_name := %s; dd_desc := %s; dd_locs := %s; dd_args := %s; dd_builtin := %s |}",
-		c.S(d.Name), c.S(d.Description), c.Strs(locs), c.ArgDefs(d.Arguments), coqBool(builtin)))
+	return c.Intern("dd", "dirdef", fmt.Sprintf("{| dd_name := %s; dd_desc := %s; dd_locs := %s; dd_args := %s; dd_builtin := %s; dd_repeatable := %s |}",
+		c.S(d.Name), c.S(d.Description), c.Strs(locs), c.ArgDefs(d.Arguments), coqBool(builtin), coqBool(d.IsRepeatable)))
 }
 
 // Schema prints Types and Directives sorted by name
